@@ -164,6 +164,17 @@ inline bool ip6_sweep(const PDU& p, std::string& out) {
             if (h && h->option() != ids[i]) throw std::logic_error("search_header returned another type");
         }
     });
+    // IPv6::extract_metadata on every prefix (up to 72 bytes) of this packet's serialization, each in an exact-size heap
+    // block; libtins exceptions only
+    sweep_item(out, "extract_metadata", [&] {
+        std::unique_ptr<PDU> c(ip.clone());
+        bytes b = c->serialize();
+        for (size_t n = 0; n <= b.size() && n <= 72; ++n) {
+            std::unique_ptr<uint8_t[]> blk(new uint8_t[n ? n : 1]);
+            if (n) memcpy(blk.get(), b.data(), n);
+            try { IPv6::extract_metadata(blk.get(), uint32_t(n)); } catch (const malformed_packet&) {}
+        }
+    });
     for (IPv6::headers_type::const_iterator it = ip.headers().begin(); it != ip.headers().end(); ++it) {
         sweep_item(out, "hdr.hop_by_hop", [&] { IPv6::hop_by_hop_header::from_extension_header(*it); });
         sweep_item(out, "hdr.dest_routing", [&] { IPv6::destination_routing_header::from_extension_header(*it); });
